@@ -180,6 +180,7 @@ def canon_dst(d):
 
 
 _LONG = 700
+_DEEP = 3000
 
 
 _JUNK = "{0} %s \\ \" ' \n\t\x00 \u00e9 \U0001F680 \ud83d [*]?"      # format characters, quotes, NUL, an emoji, a LONE surrogate, glob characters
@@ -193,6 +194,9 @@ def _payload(m):
     by a bar and characters that mean something to formatters, encoders and parsers -- a payload is opaque text"""
     if CTX.scenario.get("quote_plugin"):
         return "%s|%s" % (m, _QUOTE)       # an ordinary message that quotes a packet of the follow-mobility plugins
+    if CTX.scenario.get("json_payloads"):
+        # a text that happens to be a document in some notation (here JSON, deeply nested): still opaque text to the simulator
+        return "[" * _DEEP + str(m) + "]" * _DEEP
     if CTX.scenario.get("odd_payloads"):
         return "%s|%s" % (m, _JUNK)
     return str(m).zfill(_LONG) if CTX.scenario.get("long_payloads") else str(m)
@@ -293,6 +297,11 @@ def _tnum(name):
         m = re.fullmatch(r"n(\d+)#", name)
         return int(m.group(1)) if m else -1
     return int(name) if re.fullmatch(r"\d+", str(name)) else -1
+
+
+class _PluginStatus(enum.Enum):
+    READY = 1
+    BUSY = 2
 
 
 class _HelperMixin:
@@ -511,6 +520,13 @@ class ScriptedProtocol(IProtocol):
             # the protocol hosts one of the library's follow-mobility plugins, which runs timers of its own
             from gradysim.protocol.plugin.follow_mobility import MobilityLeaderPlugin, MobilityFollowerPlugin
             self._hosted = (MobilityLeaderPlugin if host == "leader" else MobilityFollowerPlugin)(self)
+            # ... and a small observing plugin of its own whose handlers answer with members of ITS status enumeration
+            # (anything but DispatchReturn.INTERRUPT lets the call go on to the protocol)
+            from gradysim.protocol.plugin.dispatcher import create_dispatcher
+            d = create_dispatcher(self)
+            d.register_handle_telemetry(lambda instance, telemetry: _PluginStatus.READY)
+            d.register_handle_timer(lambda instance, timer: _PluginStatus.READY)
+            d.register_handle_packet(lambda instance, message: _PluginStatus.BUSY)
         self._fire("init", None, "init")
         return self._result()
 
@@ -533,8 +549,11 @@ class ScriptedProtocol(IProtocol):
         if (CTX.scenario.get("odd_payloads") or CTX.scenario.get("quote_plugin")) and isinstance(message, str) and "|" in message:
             head, rest = message.split("|", 1)
             message = head if rest == (_QUOTE if CTX.scenario.get("quote_plugin") else _JUNK) else "altered:" + message
+        if CTX.scenario.get("json_payloads") and isinstance(message, str) and message.startswith("["):
+            inner = message[_DEEP:-_DEEP]
+            message = inner if message == "[" * _DEEP + inner + "]" * _DEEP else "altered:" + message[:40]
         n = int(message) if re.fullmatch(r"\d+", str(message)) else -1
-        if n >= 0 and CTX.scenario.get("long_payloads") and not CTX.scenario.get("odd_payloads") and len(str(message)) != _LONG:
+        if n >= 0 and CTX.scenario.get("long_payloads") and not CTX.scenario.get("json_payloads") and not CTX.scenario.get("odd_payloads") and len(str(message)) != _LONG:
             n = -1            # what arrives is not what was sent
         self._fire("packet", n, "packet %s" % (n if n >= 0 else "corrupt:" + repr(message)[:60]))
         return self._result()
@@ -648,7 +667,10 @@ class RecorderBase(INodeHandler):
         CTX.trace.append("hfinal %d" % self.J)
 
 
-def make_recorder(j):
+def make_recorder(j, label=None):
+    """`label`: the label the handler registers under (default: its own, rec<j>)"""
+    if label is None:
+        label = "rec%d" % j
     if j % 2 == 1:
         class Middle(RecorderBase):
             pass
@@ -658,13 +680,13 @@ def make_recorder(j):
 
             @staticmethod
             def get_label():
-                return "rec%d" % j
+                return label
         return Inherited()
 
     class Recorder(INodeHandler):
         @staticmethod
         def get_label():
-            return "rec%d" % j
+            return label
 
         def inject(self, event_loop):
             pass
@@ -881,6 +903,27 @@ def run_sim_impl(sc, variant=None):
             if sc.get("build_twice"):
                 b.build()                   # "build the scenario again": the first simulator is simply dropped
             sim = b.build()
+            if sc.get("builder_reused"):
+                # the builder goes on to prepare ANOTHER simulation -- fresh handler objects with other settings under the same
+                # labels, one more node -- and builds it; the simulator built first is the one that runs ("nodes and handlers
+                # added after this call will not affect the instance returned by this method")
+                for h in sc["handlers"]:
+                    if h == "T":
+                        b.add_handler(TimerHandler())
+                    elif h == "C":
+                        b.add_handler(CommunicationHandler(CommunicationMedium(transmission_range=1e9, delay=3.0)))
+                    elif h == "M":
+                        b.add_handler(MobilityHandler(MobilityConfiguration(update_rate=0.37, default_speed=99.0)))
+                    elif h == "A":
+                        b.add_handler(AssertionHandler([]))
+                    elif h.startswith("R"):
+                        b.add_handler(make_recorder(int(h[1:]) + 90, label="rec%d" % int(h[1:])))
+                b.add_node(PROTO[0], (1.0, 1.0, 1.0))
+                b.build()
+            if sc.get("forked"):
+                # a prepared simulation is forked with copy.deepcopy before it starts, and the copy is the one that runs
+                import copy as _copy
+                sim = _copy.deepcopy(sim)
             CTX.sim = sim
             if sc.get("poll_done"):
                 sim.is_simulation_done()    # a read-only query, asked before anything has run
